@@ -243,6 +243,14 @@ def _m8b(ctx):
     return r
 
 
+def _sib1(ctx):
+    from .rules import sibling
+    r, npairs, nnames = sibling.rule_SIB1(ctx)
+    r.floor('sibling function pairs', npairs, 50)
+    r.floor('assigned names compared', nnames, 120)
+    return r
+
+
 def _c01(ctx):
     from .rules import mask
     m1, n1 = mask.rule_M1(ctx)
@@ -252,7 +260,7 @@ def _c01(ctx):
                  '(and the delegated solver never used when it was not built); line state only after Init()',
                  {'GenDirect', 'GenDirectLine', 'Line', 'DirectLine', 'ArcDirectLine', 'LineInit', 'GenPosition',
                   'A3f', 'C3f', 'C4f'}, 8),
-            m1, _m8(ctx), _m8b(ctx)]
+            m1, _m8(ctx), _m8b(ctx), _sib1(ctx)]
 
 
 def _c02(ctx):
@@ -263,7 +271,7 @@ def _c02(ctx):
                  'exact-delegation / conditional-initialisation licence on the inverse path (GenInverse, InverseLine, '
                  'Lengths, InverseStart, Lambda12): no conditionally initialised value reaches an output or a branch',
                  {'GenInverse', 'InverseLine', 'Lengths', 'InverseStart', 'Lambda12', 'A3f', 'C3f', 'C4f'}, 10),
-            r6, _m8(ctx), _m8b(ctx)]
+            r6, _m8(ctx), _m8b(ctx), _sib1(ctx)]
 
 
 def _c03(ctx):
@@ -280,7 +288,7 @@ def _c03(ctx):
     return [_t1(ctx, 'geodesic', {'A2m1f', 'C2f', 'C4coeff'}, 60), m2, m4, m7,
             _lic(ctx, ['GeodesicLine', 'GeodesicLineExact'], 'M3',
                  'capability licence: m12/M12/M21/S12 are computed only from line state the capabilities initialised',
-                 {'GenPosition'}, 2), _m8b(ctx)]
+                 {'GenPosition'}, 2), _m8b(ctx), _sib1(ctx)]
 
 
 def _c06(ctx):
@@ -320,7 +328,7 @@ def _c12(ctx):
     m7.floor('mask-gated placeholders', nc7, 3)
     m9, n9 = licrules.rule_M9(ctx)
     m9.floor('mask selections', n9, 6)
-    return [m1, m2, m2c, m4, lic, m4c, m6, m7, _m8(ctx), _m8b(ctx), m9]
+    return [m1, m2, m2c, m4, lic, m4c, m6, m7, _m8(ctx), _m8b(ctx), _sib1(ctx), m9]
 
 
 def _c09(ctx):
